@@ -224,6 +224,9 @@ func (x *Exec) onStack(st *State, f *ssa.Function) bool {
 }
 
 func (x *Exec) inlineCall(st *State, fr *Frame, ci ssa.CallInstruction, callee *ssa.Function, args []SV, binds []SV) bool {
+	if !x.inlined[callee.String()] && os.Getenv("GOWP_TRACE") != "" {
+		fmt.Fprintf(os.Stderr, "inline %s (%d blocks)\n", callee, len(callee.Blocks))
+	}
 	x.inlined[callee.String()] = true
 	nf := &Frame{fn: callee, vals: map[ssa.Value]SV{}, visits: map[int]int{}, inCut: map[int]bool{}, call: ci, block: callee.Blocks[0]}
 	if len(args) != len(callee.Params) {
